@@ -100,9 +100,10 @@ class MemFS:
     """in-memory files + a contract stub of json for int->int tables:
     json.load(file written with json.dumps(d)) == {decimal string of k: v}."""
 
-    def __init__(self):
+    def __init__(self, symbolic=True):
         self.files = {}
-        self.json = _JsonStub(self)
+        # symbolic runs use the contract stub; concrete replays use the real json module on the in-memory file
+        self.json = _JsonStub(self) if symbolic else _json
 
     def open(self, name, mode="r"):
         if "w" in mode:
@@ -168,6 +169,9 @@ class _StrKey:
 
     def __init__(self, k):
         self.k = k
+
+    def __int__(self):
+        return int(self.k)
 
 
 class _StrKeyTable:
